@@ -85,6 +85,31 @@ def run(tier, seed, which="C14"):
         members = [dict(names=sc["names"], seqs=v, type=sc["type"], gpo=sc["gpo"], gpe=sc["gpe"], tgpe=sc["tgpe"], threads=sc["threads"], dump_in=True) for v in variants]
         groups.append(dict(gid="mask_%d" % i, rel="pattern", prop="C14", members=members, key="mask:%s:%d" % (base, sc["type"]),
                            nontrivial=len(set(base)) > 1))
+    # records that share one name and one length (the statement does not require distinct names): the spelling of the
+    # residues must not decide the internal order either
+    for i in range(40 if tier == "quick" else 600):
+        kind = rng.choice(["dna", "dna", "protein"])
+        alpha = gen.DNA if kind == "dna" else "DEFHIKLMPQRSVWY"
+        n = rng.randint(3, 6)
+        L = rng.randint(8, 30)
+        base = gen.family(rng, n, L, alpha, sub=0.25, indel=0.0)
+        # equal lengths, but give the aligner a reason to open gaps: rotate some sequences
+        base = [b[k:] + b[:k] for b, k in zip(base, [rng.randint(0, 2) for _ in base])]
+        variants = [base]
+        for v in range(4):
+            j = rng.randrange(n)
+            vs = list(base)
+            mode = rng.random()
+            if mode < 0.4:
+                vs[j] = vs[j].lower()
+            elif mode < 0.7 and kind == "dna":
+                vs[j] = vs[j].replace("T", "U", 1) if "T" in vs[j] else vs[j].lower()
+            else:
+                vs[j] = gen.case_mask(rng, vs[j], 0.5)
+            variants.append(vs)
+        ty = rng.choice(gen.TYPES_NUC if kind == "dna" else gen.TYPES_PROT)
+        members = [dict(names=["read"] * n, seqs=v, type=ty, threads=1, dump_in=True) for v in variants]
+        groups.append(dict(gid="samename_%d" % i, rel="pattern", prop="C14", members=members, key="samename:%s:%d" % (base, ty)))
     V.sample(dict(group="case_all_0", base=tiny[0][0], variants="all 2^k case masks"))
     rel.run_groups(V, groups, wd, per_batch=4)
     return V.finish(rule="5 real code tables (128 entries each) checked for case/T-U blindness; groups = base input + re-spelled variants "
